@@ -8,6 +8,7 @@ from ..harness import CheckBase
 
 class Check(CheckBase):
     property_id = 'C02'
+    evaluations_counter = 'histories'
     level = 'exploration'
     rule = ('histories of 6-40 operations {snapshot, repeat snapshot, delete subset of own, clean, concurrent group of '
             'snapshots+restore (in one process, and as separate processes over one Local directory)} by 1-5 users whose keys are owner/shared/shared-of-shared/clone/independent (or one '
